@@ -417,6 +417,7 @@ class Gen:
         self.sites = {}  # id -> number of places the clause was spliced
         self.dropped = []
         self.fn_segs = []
+        self._consts = set()
         self.fn_ranges = []  # (byte_start, byte_end, item)
 
     def fired(self, rule):
@@ -473,9 +474,29 @@ class Gen:
         finally:
             self.fn_segs.append((i0, len(self.segs), it))
 
+    def auto_consts(self, src, fn):
+        """emit top-level `const`s of the same file that the function mentions (once each)"""
+        body = src.text(fn)
+        for c in find_items(src.tree):
+            if c["k"] == "Const" and re.search(r"\b" + re.escape(c["a"]["ident"]) + r"\b", body):
+                key = (src.rel, c["a"]["ident"])
+                if key in self._consts:
+                    continue
+                self._consts.add(key)
+                ed = Edits(src, c["s"], c["e"])
+                for n in walk(c):
+                    if n["k"] == "Attr":
+                        ed.delete(n["s"], n["e"])
+                for seg in ed.segments():
+                    self.emit(*seg)
+                self.emit("\n", ("glue",))
+                self.fired("auto-const")
+
     def _emit_fn(self, it):
         src = Src.get(it["rel"])
         impl, fn = find_fn(src, it["name"])
+        if not self.vac and not it["external"]:
+            self.auto_consts(src, fn)
         ed = Edits(src, fn["s"], fn["e"])
         sig = kid(fn, "sig")
         body = kid(fn, "body")
@@ -662,6 +683,46 @@ class Gen:
                 self.rw_position(it, src, fn, body, n, ed, pieces, idx)
             elif kind in ("any", "all"):
                 self.rw_any(it, src, fn, body, n, ed, pieces, idx, kind)
+
+        # R17: Option combinators taking a closure, desugared to `match` per their std definitions
+        #      (closure body and receiver spliced verbatim)
+        for n in walk(body):
+            if n["k"] != "MethodCall" or n["a"]["method"] not in ("is_some_and", "is_none_or", "filter", "map", "map_or", "and_then"):
+                continue
+            m = n["a"]["method"]
+            args = kids(n, "arg")
+            O = kid(n, "receiver")
+            if m == "filter" and O["k"] == "MethodCall" and O["a"]["method"] in ("iter", "into_iter", "skip", "enumerate", "chars", "lines"):
+                continue  # iterator filter, not Option::filter
+            if O["k"] in ("Paren", "Range") or (O["k"] == "MethodCall" and O["a"]["method"] in ("iter", "into_iter", "skip", "enumerate", "chars", "lines", "windows", "captures", "position")):
+                continue
+            clo = args[-1] if args else None
+            if clo is None or clo["k"] != "Closure" or len(kids(clo, "input")) != 1:
+                continue
+            p = kids(clo, "input")[0]
+            B = kid(clo, "body")
+            if m in ("is_some_and", "is_none_or", "map", "and_then") and len(args) == 1:
+                some, none = {"is_some_and": ("", "false"), "is_none_or": ("", "true"),
+                              "map": ("Some(", "None"), "and_then": ("", "None")}[m]
+                ed.replace(n["s"], O["s"], "(match ", ("rule", "R17"))
+                ed.replace(O["e"], p["s"], " { Some(", ("rule", "R17"))
+                ed.replace(p["e"], B["s"], f") => {some}", ("rule", "R17"))
+                ed.replace(B["e"], n["e"], (")" if some else "") + f", None => {none} }})", ("rule", "R17"))
+                self.fired("R17")
+            elif m == "filter" and len(args) == 1:
+                ed.replace(n["s"], O["s"], "(match ", ("rule", "R17"))
+                ed.replace(O["e"], p["s"], " { Some(__x) => if { let ", ("rule", "R17"))
+                ed.replace(p["e"], B["s"], " = &__x; ", ("rule", "R17"))
+                ed.replace(B["e"], n["e"], " } { Some(__x) } else { None }, None => None })", ("rule", "R17"))
+                self.fired("R17")
+            elif m == "map_or" and len(args) == 2:
+                D = args[0]
+                dflt = T(D)
+                ed.replace(n["s"], O["s"], "(match ", ("rule", "R17"))
+                ed.replace(O["e"], p["s"], " { Some(", ("rule", "R17"))
+                ed.replace(p["e"], B["s"], ") => ", ("rule", "R17"))
+                ed.replace(B["e"], n["e"], f", None => {dflt} }})", ("rule", "R17"))
+                self.fired("R17")
 
         # R15: X.clone().or_else(|| Y.clone())  ->  __clone_or_else(&X, &Y)   (X, Y verbatim)
         # R14: V.extend(E)                       ->  __vec_extend(&mut V, E)
